@@ -18,7 +18,9 @@ META = {
             "Directed adversary classes (every behaviour that breaks the pinned design) and random composite adversaries "
             "(TLC simulation, n=3..5, 1-2 corrupt) are replayed on the real gjkr states with real bn256/ECDH values; every "
             "member's IA/DQ, evidence log, QUAL, stored points, expected/revealed reconstructions and accepted messages are "
-            "compared with the model after every step and agreement is evaluated on the real results. Model checking is the "
+            "compared with the model after every step and agreement is evaluated on the real results. In the other direction, "
+            "runs against an adversary chosen by the harness (unbounded deviations, random orders in every state) are recorded "
+            "and validated by TLC against the model (Trace_Gjkr) with all invariants evaluated on the real traces. Model checking is the "
             "right level: agreement quantifies over combinations of misbehaviours across phases and delivery orders that no "
             "test enumerates (six genuine defects were found this way, five need only one or two interacting deviations).",
     "note": "Trusted: the symbolic-to-real abstraction function of the harness (stated in gjkr_harness_test.go); block timing of "
@@ -27,7 +29,8 @@ META = {
             "n<=5, deviation budget 2-3; the IA-versus-DQ classification of a misbehaved member is not asserted to agree "
             "(the result merges both lists).",
     "technique": "TLA+ spec of the protocol states checked exhaustively with TLC; hazard (unrepaired) variant violated; TLC-generated "
-                 "directed and random behaviours replayed step by step on the real member/state objects with real cryptography",
+                 "directed and random behaviours replayed step by step on the real member/state objects with real cryptography; "
+                 "trace validation of harness-adversary runs",
     "design_ref": "DESIGN.md §4.2 C01 / C02",
 }
 
@@ -46,7 +49,8 @@ def run(ctx):
              "n=3, duplicate reveal, unexpected reveal, absent shares, dropped accuser, partial points) plus TLC-simulated "
              "random adversaries for n=3,4,5; non-trivial = behaviours with at least one deviation. After every step the "
              "real member's view is compared with the model; agreement, honest-punished and fatal aborts are evaluated on "
-             "the real results.",
+             "the real results. Trace validation: 10 (quick) / 120 (thorough) runs per group size against a harness-chosen "
+             "adversary must be accepted by Trace_Gjkr with every invariant holding.",
         assumptions=["synchronous rounds: a message is delivered to all honest members within its state or to none",
                      "consistent broadcast: all honest members see the same messages of a sender in the same order",
                      "one operator per seat (membership validation maps a transport key to exactly one member index)",
